@@ -4,12 +4,21 @@ import (
 	"net/http"
 )
 
-var vxLens = [...]int{0, 1, 5}
+var vxLensQuick = [...]int{0, 1, 5}
+var vxLensThorough = [...]int{0, 1, 2, 5, 9}
+
+func vxLens() []int {
+	if vxTier() == "thorough" {
+		return vxLensThorough[:]
+	}
+	return vxLensQuick[:]
+}
 
 // vxVal: a field value of symbolic bytes that net/http lets a client send (HTAB, SP,
 // visible ASCII, obs-text; no other control characters).
 func vxVal(p string) string {
-	s := vxStr(p, vxLens[vxChoice(p+".len", len(vxLens))])
+	ls := vxLens()
+	s := vxStr(p, ls[vxChoice(p+".len", len(ls))])
 	for i := 0; i < len(s); i++ {
 		c := s[i]
 		vxAssume(vxOr(c == '\t', vxAnd(c >= 0x20, c != 0x7f)))
@@ -72,7 +81,7 @@ func vxReqHeader(p string) (http.Header, [2][]string) {
 		switch vxChoice(p+"."+name+".lines", 3) {
 		case 0:
 		case 1:
-			lines[i] = []string{vxStr(p+"."+name+".0", 1+vxChoice(p+"."+name+".len0", 2))}
+			lines[i] = []string{vxStr(p+"."+name+".0", 1+vxChoice(p+"."+name+".len0", vxMatchLen()))}
 		default:
 			lines[i] = []string{vxStr(p+"."+name+".0", 1), vxStr(p+"."+name+".1", 1)}
 		}
@@ -132,4 +141,12 @@ func VxC04_Match() {
 	}
 	vxAssert(vxImplies(found, same), "C04/matched-despite-different-nominated-field")
 	vxAssert(vxImplies(same, found), "C09/equivalent-request-not-matched")
+}
+
+// vxMatchLen: one field line of 1..2 symbolic bytes (quick) or 1..4 (thorough)
+func vxMatchLen() int {
+	if vxTier() == "thorough" {
+		return 4
+	}
+	return 2
 }
